@@ -553,7 +553,7 @@ impl Prop for C17 {
         "Generic helper (layout21utils::DepOrder with a harness adjacency-table impl): EXHAUSTIVE every digraph on 4 nodes with self-loops (2^16) under every ordered subset listing (65 listings incl. partial ones); thorough adds every loop-free digraph on 5 nodes (2^20) in all 120 orders, \
          quick a seeded sample of 5-node digraphs with self-loops in all 120 orders; every 4-node digraph also runs with hook logging on and its enter/cycle/done/return event trace is checked offline (LIFO completion, no item done twice, pending/seen disjoint, pending empty at return, depth <= |V|, push budget); \
          random DAGs/cyclic graphs up to 300 nodes traced. Embedded orderers: raw DepOrder::order and the cell order of Library::to_proto, the import order of Library::from_gds (SREF/AREF edges), and the gridded-layout orderers (Library::dep_order, ProtoExporter cell order, Placer::place): every acyclic loop-free 4-node digraph in all 24 listings, random DAGs up to 300 nodes with shared dependencies and users listed first; \
-         cyclic graphs (self-loop, 2-cycle, long cycle) each in an isolated child process (stack overflow / hang = violation). Oracle: refs/order.rs (reachable set, duplicate-free, dependencies first, cycle => error). distinct_nontrivial = distinct (graph, listing) pairs with at least one edge."
+         gridded->raw export into a raw library that already holds cells (wrapped sinks); dep_order while another thread holds a cell's write guard and on a poisoned cell (it may wait or refuse, not answer wrongly); cyclic graphs (self-loop, 2-cycle, long cycle) each in an isolated child process (stack overflow / hang = violation). Oracle: refs/order.rs (reachable set, duplicate-free, dependencies first, cycle => error). distinct_nontrivial = distinct (graph, listing) pairs with at least one edge."
             .into()
     }
     fn assumptions(&self) -> Vec<String> {
